@@ -2,33 +2,43 @@
   C08, COMPLETENESS for ALL specifications (disjunctions included): the machine of Model/TypeCheck.lean never
   rejects a conforming object.
 
-      machine_complete   Conforms g ctx o chk → checkType accepts          (every graph, context, object, check)
+      checkType_complete   wfSpec ctx chk → Conforms g ctx o chk → check_type (run with the C09 work bound) = accept
+      checkType_complete_fuel   the same for any fuel: accept, or the fuel ran out; never reject, never panic
+      run_complete         the machine started on a check of a closed well-formed set `G` (`ClosedC`)
 
-  under `FixC fx` (the repairs staleErr, namedDisj, disjAttrs, refChain are in, the memo is monotone: trail off;
-  `Fix.tree` satisfies it) and the well-formedness of the specification `Frag.wfSpec` (no dangling name, no name
-  bound to a name, no empty disjunction among the nodes of the normalised specification and of the context).
+  under `FixC fx` (the repairs staleIdx, staleErr, namedDisj, disjAttrs, refChain are in, the memo is monotone: trail off;
+  every other flag is free -- they only make the machine skip less or more; `Fix.tree` satisfies it) and the
+  well-formedness `Frag.wfSpec` of Spec/TypeCheckWF.lean (every name of the specification and of the context is bound to
+  a representation, no empty disjunction): the three ways to leave `check_type` that are not a verdict about the object
+  (UnknownTypeCheck -- the entry loops resolve the check of EVERY entry, also of an absent optional key; a name bound to
+  a name reaches the per-type match unresolved; `unreachable!()` on an empty disjunction).
 
-  Why it holds although the memo leaks: a memo hit only SKIPS work; a check fails only at a node whose
-  (object, check) pair does not conform in one step.
+  Why it holds although the memo leaks: a memo hit only SKIPS work (`issue` on an examined pair clears the error and
+  continues); a check fails only at a node whose (object, check) pair does not conform in one step.
 
-  LOCAL (`processCheck_conf`, `processCheck_not_hard`): on a well-formed node the per-type cases never take the
-  hard exit, and at a CONFORMING pair they do not fail and queue / return conforming pairs only.
-  GLOBAL (`MInv`): the stack of pending sets is read from the top with an accumulator `U` ("everything above is
-  trusted"):
-      a set whose head is a disjunction IN PROGRESS (index > 0): the rest of the set conforms, and
-            EITHER everything above is trusted (the alternative being tried is expected to pass)
-            OR an alternative at or after the current index conforms (`Future`);
-      any other set: all its pairs conform and everything above is trusted;
-      the top set may carry, in front of its in-progress disjunction, the pair returned after following a
-      reference (it belongs to the alternative being tried).
-  `U` at the top is "no pending error".  With a pending error the invariant therefore says that SOME set below is
-  an in-progress disjunction with a conforming alternative still to come, all sets below it being trusted:
-  `unwind` stops at the first in-progress set, so it never empties the stack (`unwind_ok`) and the conforming
-  alternative is reached; when it is tried nothing inside it fails (nested sets by the same invariant).
-  Alternatives tried before it may fail (unwind, next alternative) or pass wrongly because of the memo (accept).
+  LOCAL (`processCheck_spec`, from `checkShape_ok` / `checkShape_notHard` / Term.`checkShape_closed`): on a well-formed
+  node the per-type cases never take the hard exit; a `fail` refutes the pair; what is queued (`push`) are sub-checks of
+  the node that conform if the pair does; a reference is replaced (`ret`) by (value, check without indirect
+  requirement), which conforms if the pair does; a disjunction is put back as a set of its own (`pushRaw`).
+  GLOBAL (`Stk b todo`, `MInv`): the stack of pending sets is read from the top, `b` = "the top is TRUSTED":
+      a set that is not an in-progress disjunction has the trust of what is below it; if trusted, all its pairs conform;
+      an in-progress disjunction (index > 0) sits on a stack of trust `b0`: what follows it in its set conforms if `b0`;
+            the alternative being tried and everything above is trusted only if `b0`; if `b0` but NOT trusted, an
+            alternative at or after the current index conforms (the `Future` clause);
+      the top set may carry, in front of its in-progress disjunction, the pair returned after following a reference
+            (it belongs to the alternative being tried; then there is no pending error);
+      the empty stack is trusted, and a pending error implies `b = false`.
+  So with a pending error SOME set below is an in-progress disjunction: `unwind` stops at the first one and never empties
+  the stack (`unwind_ok`); there the next alternative is tried: it is the conforming one (trust becomes true: nothing
+  inside it fails, nested sets by the same invariant), or the conforming one is still to come, or the region was
+  untrusted anyway (`b0 = false`: an exhausted disjunction unwinds further).  Alternatives tried before the conforming
+  one may fail (unwind, next alternative) or pass wrongly because of the memo (accept).  The run ends only at the empty
+  stack, which is trusted, hence without error: accept (`step_ok`, `run_ok`).
   The limit reading matters twice: a conforming disjunction HAS a conforming alternative (`conforms_disj_alt`,
-  pigeonhole on the decreasing chain), and normalisation of nested disjunctions preserves conformance
-  (`conforms_norm`, coinduction).
+  pigeonhole on the decreasing chain `conf n`), and normalisation of nested disjunctions preserves conformance
+  (`Norm.conforms_norm`, Lemmas/ConformsNorm.lean: one level of the chain is lost per flattened nesting).
+  The closed set of a case is the universe `chkU` of Spec/WorkBound.lean (`closedC_chkU`, closure lemmas of
+  Lemmas/TypeCheckTerm.lean), well formed by `nodeWF_baseU` / `Norm.wfChk_norm`.
 -/
 import Parsley.Model.TypeCheck
 import Parsley.Spec.Conforms
@@ -37,11 +47,14 @@ import Parsley.Spec.TypeCheckFrag
 import Parsley.Lemmas.TypeCheckTerm
 import Parsley.Lemmas.TypeCheckSound
 import Parsley.Lemmas.ConformsMono
+import Parsley.Spec.TypeCheckWF
+import Parsley.Lemmas.ConformsNorm
 namespace Parsley.TC.Complete
-open Parsley Parsley.TC Parsley.TC.Spec Parsley.TC.Term Parsley.TC.Sound
+open Parsley Parsley.TC Parsley.TC.Spec Parsley.TC.Term Parsley.TC.Sound Parsley.C08 Parsley.TC.Frag
 
 /-- the repair flags the completeness proof needs (all others are free: they only make the machine skip less) -/
 structure FixC (fx : Fix) : Prop where
+  staleIdx : fx.staleIdx = true
   staleErr : fx.staleErr = true
   namedDisj : fx.namedDisj = true
   disjAttrs : fx.disjAttrs = true
@@ -397,5 +410,832 @@ theorem checkShape_ok (fx : Fix) (ctx : Ctx) (f : Obj → Chk → Bool) (o : Obj
         · simpa using h2 q hq
         · simpa using h4 q hq
     | _ => simp [shapeOK] at hs
+
+/-! ### facts about `Conforms` (the limit reading) -/
+
+theorem conf_le (g : Graph) (ctx : Ctx) (m : Nat) :
+    ∀ (n : Nat), m ≤ n → ∀ o c, conf g ctx n o c = true → conf g ctx m o c = true
+  | 0, h, o, c, hc => by
+    have : m = 0 := by omega
+    subst this; exact hc
+  | n+1, h, o, c, hc => by
+    by_cases hm : m = n + 1
+    · subst hm; exact hc
+    · exact conf_le g ctx m n (by omega) o c (conforms_antitone g ctx n o c hc)
+
+/-- a finite disjunction that holds at every level has ONE alternative that holds at every level
+    (pigeonhole on the decreasing chain) -/
+theorem conforms_alt_list (g : Graph) (ctx : Ctx) (o : Obj) : ∀ (l : List Chk),
+    (∀ n, l.any (fun alt => conf g ctx n o alt) = true) → ∃ alt ∈ l, Conforms g ctx o alt
+  | [], h => by simpa using h 0
+  | c :: t, h => by
+    by_cases hc : Conforms g ctx o c
+    · exact ⟨c, by simp, hc⟩
+    · have : ∃ n0, conf g ctx n0 o c = false := by
+        apply Classical.byContradiction
+        intro hne
+        apply hc
+        intro n
+        cases hv : conf g ctx n o c
+        · exact absurd ⟨n, hv⟩ hne
+        · rfl
+      obtain ⟨n0, hn0⟩ := this
+      have ht : ∀ n, t.any (fun alt => conf g ctx n o alt) = true := by
+        intro n
+        have := h (max n n0)
+        simp only [List.any_cons, Bool.or_eq_true] at this
+        rcases this with h1 | h1
+        · have := conf_le g ctx n0 (max n n0) (by omega) o c h1
+          rw [hn0] at this; cases this
+        · simp only [List.any_eq_true] at h1 ⊢
+          obtain ⟨alt, ha, hv⟩ := h1
+          exact ⟨alt, ha, conf_le g ctx n (max n n0) (by omega) o alt hv⟩
+      obtain ⟨alt, ha, hv⟩ := conforms_alt_list g ctx o t ht
+      exact ⟨alt, by simp [ha], hv⟩
+
+/-- what a conforming (object, disjunction) pair gives: the guard, the bare disjunction, and an alternative -/
+theorem conforms_disj_alt (g : Graph) (ctx : Ctx) (o : Obj) (a : Attr) (os : ChkL)
+    (h : Conforms g ctx o (.disj a os)) :
+    Conforms g ctx o (.any a) ∧ Conforms g ctx o (.disj Attr.dflt os) ∧
+    ∃ (j : Nat) (alt : Chk), os.chks[j]? = some alt ∧ Conforms g ctx o alt := by
+  have hn : ∀ n, indOK o a.ind = true ∧ predOK a.pred (value g o) = true ∧
+      os.chks.any (fun alt => conf g ctx n o alt) = true := by
+    intro n
+    have := h (n + 1)
+    simp only [conf, confStep, resolve, Chk.attr, shapeOK, Bool.and_eq_true] at this
+    exact ⟨this.1.1, this.1.2, this.2⟩
+  refine ⟨?_, ?_, ?_⟩
+  · intro n
+    cases n with
+    | zero => rfl
+    | succ n => simp [conf, confStep, resolve, Chk.attr, shapeOK, (hn 0).1, (hn 0).2.1]
+  · intro n
+    cases n with
+    | zero => rfl
+    | succ n =>
+      simp only [conf, confStep, resolve, Chk.attr, shapeOK, Attr.dflt, indOK, predOK, Bool.true_and]
+      exact (hn n).2.2
+  · obtain ⟨alt, ha, hv⟩ := conforms_alt_list g ctx o os.chks (fun n => (hn n).2.2)
+    obtain ⟨j, hj⟩ := List.mem_iff_getElem?.mp ha
+    exact ⟨j, alt, hj, hv⟩
+
+/-! ### LOCAL, assembled: what `processCheck` does at a well-formed node -/
+
+/-- a set of checks closed under everything the machine derives from a queued check (resolution, the form without
+    indirect requirement, sub-checks, guard and bare form of a disjunction), all of whose members are well formed:
+    they resolve to a representation, and no disjunction is empty -/
+def ClosedC (ctx : Ctx) (G : Chk → Prop) : Prop :=
+  ∀ tc, G tc → ∃ c, resolve ctx tc = some c ∧ (∀ n, c ≠ .named n) ∧ G c ∧ G c.allowInd ∧ (∀ k ∈ chkKids c, G k) ∧
+    (∀ a os, c = .disj a os → os.chks ≠ [] ∧ (a ≠ Attr.dflt → G (.any a)) ∧ G (.disj Attr.dflt os))
+
+def ActSpec (g : Graph) (ctx : Ctx) (o : Obj) (tc c : Chk) : Act → Prop
+  | .hard _ => False
+  | .fail _ => ¬ CConf g ctx (o, tc)
+  | .pass => True
+  | .ret p => p.2 = c.allowInd ∧ c.isDisj = false ∧ (CConf g ctx (o, tc) → CConf g ctx p)
+  | .push ps => (∀ q ∈ ps, q.2 ∈ chkKids c) ∧ (CConf g ctx (o, tc) → ∀ q ∈ ps, CConf g ctx q)
+  | .pushRaw ps => ps = [(o, c)] ∧ c.isDisj = true
+
+theorem resolve_self (ctx : Ctx) (c : Chk) (hn : ∀ n, c ≠ .named n) : resolve ctx c = some c := by
+  cases c <;> first | rfl | exact absurd rfl (hn _)
+
+theorem allowInd_not_named (c : Chk) (hn : ∀ n, c ≠ .named n) : ∀ n, c.allowInd ≠ .named n := by
+  cases c <;> first | exact absurd rfl (hn _) | (intro n h; cases h)
+
+theorem allowInd_attr (c : Chk) (hn : ∀ n, c ≠ .named n) : c.allowInd.attr = { c.attr with ind := .allowed } := by
+  cases c <;> first | rfl | exact absurd rfl (hn _)
+
+theorem allowInd_isDisj (c : Chk) : c.allowInd.isDisj = c.isDisj := by cases c <;> rfl
+
+theorem checkShape_spec (fx : Fix) (g : Graph) (ctx : Ctx) (o : Obj) (tc c : Chk) (hres : resolve ctx tc = some c)
+    (hn : ∀ n, c ≠ .named n) (hk : KidsRsv ctx c) (hd : c.isDisj = false) (ho : o.isRef = false) :
+    ActSpec g ctx o tc c (checkShape fx ctx o c) := by
+  have hns := checkShape_notHard fx ctx o c hk hn hd
+  have hpush := checkShape_closed fx ctx o c
+  have hok : CConf g ctx (o, tc) → ∀ n, ActOK (conf g ctx n) (checkShape fx ctx o c) := by
+    intro h n
+    have := h (n + 1)
+    simp only [conf] at this
+    rw [confStep_res g ctx _ o tc c hres, value_nonref g o ho] at this
+    simp only [Bool.and_eq_true] at this
+    exact checkShape_ok fx ctx (conf g ctx n) o c hk this.1.2 this.2 hd
+  cases hcs : checkShape fx ctx o c with
+  | hard k => rw [hcs] at hns; exact hns
+  | fail k => intro h; have := hok h 0; rw [hcs] at this; exact this
+  | pass => trivial
+  | ret p => exact absurd hcs (hpush.2.1 p)
+  | pushRaw ps => exact absurd hcs (hpush.2.2 ps)
+  | push ps =>
+    refine ⟨fun q hq => ((hpush.1 ps hcs).1 q hq).2, fun h q hq n => ?_⟩
+    have := hok h n
+    rw [hcs] at this
+    exact this q hq
+
+theorem processCheck_spec {fx : Fix} (hfx : FixC fx) (g : Graph) (ctx : Ctx) (o : Obj) (tc c : Chk)
+    (hres : resolve ctx tc = some c) (hn : ∀ n, c ≠ .named n) (hk : KidsRsv ctx c) :
+    ActSpec g ctx o tc c (processCheck fx g ctx o tc c) := by
+  unfold processCheck
+  cases hd : c.isDisj
+  · simp only [Bool.and_false, Bool.false_eq_true, if_false]
+    have hfail : ∀ k, indOK o c.attr.ind = false → ActSpec g ctx o tc c (.fail k) := by
+      intro k hi h
+      have := h 1
+      simp only [conf] at this
+      rw [confStep_res g ctx _ o tc c hres, hi] at this
+      simp at this
+    cases hr : o.isRef
+    · -- a value
+      have hsh := checkShape_spec fx g ctx o tc c hres hn hk hd hr
+      cases hi : c.attr.ind <;> cases o <;> first
+        | (simp [Obj.isRef] at hr; done)
+        | (simp only []; exact hsh)
+        | (simp only []; exact hfail _ (by simp [hi, indOK, Obj.isRef]))
+    · cases o with
+      | ref a b =>
+        cases hi : c.attr.ind
+        case forbidden => simp only []; exact hfail _ (by simp [hi, indOK, Obj.isRef])
+        all_goals
+          simp only [hfx.refChain, if_true]
+          refine ⟨rfl, hd, fun h n => ?_⟩
+          cases n with
+          | zero => rfl
+          | succ m =>
+            have := h (m + 1)
+            simp only [conf] at this ⊢
+            rw [confStep_res g ctx _ _ tc c hres] at this
+            rw [confStep_res g ctx _ _ c.allowInd c.allowInd (resolve_self ctx _ (allowInd_not_named c hn)),
+              allowInd_attr c hn]
+            have hv : g.chase (g.length + 1) (.ref a b) = value g (.ref a b) := (deref_eq_chase g _ _).symm
+            simp only [hv, value_nonref g _ (value_not_ref g (.ref a b)), indOK, Bool.true_and]
+            simp only [Bool.and_eq_true] at this
+            rw [← shapeOK_allowInd _ (.ref a b) _ _ c hd]
+            simp [this.1.2, this.2]
+      | _ => simp [Obj.isRef] at hr
+  · simp only [hfx.namedDisj, Bool.and_self, if_true]
+    exact ⟨rfl, hd⟩
+
+/-! ### GLOBAL: the invariant of the stack of pending sets -/
+
+/-- `Stk b todo`: the stack read from the top, `b` = "the top is TRUSTED" (everything pending up there is expected to
+    pass).  A set that is not an in-progress disjunction has the trust of what is below it, and if trusted all its
+    pairs conform.  An in-progress disjunction (index > 0) sits on a stack of trust `b0`; what follows it in its set
+    conforms if `b0`; the alternative being tried (and everything above) is trusted only if `b0`, and if `b0` but not
+    trusted, an alternative at or after the index conforms. -/
+inductive Stk (g : Graph) (ctx : Ctx) : Bool → List Ent → Prop
+  | nil : Stk g ctx true []
+  | plain {b : Bool} {e : Ent} {rest : List Ent} : Stk g ctx b rest → e.idx = 0 →
+      (b = true → ∀ p ∈ e.pending, CConf g ctx p) → Stk g ctx b (e :: rest)
+  | prog {b b0 : Bool} {e : Ent} {rest : List Ent} {obj : Obj} {a : Attr} {set : ChkL} {ptl : List Pend} :
+      Stk g ctx b0 rest → e.pending = (obj, .disj a set) :: ptl → 0 < e.idx →
+      (b0 = true → ∀ p ∈ ptl, CConf g ctx p) → (b = true → b0 = true) →
+      (b0 = true → b = false → ∃ (j : Nat) (alt : Chk), e.idx ≤ j ∧ set.chks[j]? = some alt ∧ CConf g ctx (obj, alt)) →
+      Stk g ctx b (e :: rest)
+
+def PendG (G : Chk → Prop) (todo : List Ent) : Prop := ∀ e ∈ todo, ∀ p ∈ e.pending, G p.2
+
+/-- the invariant: all pending checks are well formed; the stack has a trust `b` that is false when an error is
+    pending; the top set may carry, in front of its in-progress disjunction, the pair returned after a reference
+    was followed (then there is no error) -/
+def MInv (g : Graph) (ctx : Ctx) (G : Chk → Prop) (todo : List Ent) (err : Option EK) : Prop :=
+  PendG G todo ∧ ∃ b : Bool, (∀ k, err = some k → b = false) ∧
+    (Stk g ctx b todo ∨
+     (err = none ∧ ∃ (e : Ent) (rest : List Ent) (p : Pend), todo = { e with pending := p :: e.pending } :: rest ∧
+        0 < e.idx ∧ p.2.isDisj = false ∧ Stk g ctx b (e :: rest) ∧ (b = true → CConf g ctx p)))
+
+theorem unwind_ok (g : Graph) (ctx : Ctx) : ∀ (t : List Ent), Stk g ctx false t →
+    ∃ t', unwind t = some t' ∧ Stk g ctx false t' ∧ ∀ e ∈ t', e ∈ t
+  | [], h => by cases h
+  | e :: rest, h => by
+    cases h with
+    | plain h1 hidx hc =>
+      obtain ⟨t', h2, h3, h4⟩ := unwind_ok g ctx rest h1
+      refine ⟨t', ?_, h3, fun e' he' => List.mem_cons_of_mem _ (h4 e' he')⟩
+      simp only [unwind, hidx]
+      cases e.pending with
+      | nil => exact h2
+      | cons p ptl => simpa using h2
+    | prog h1 hp hidx hc hb hf =>
+      refine ⟨e :: rest, ?_, Stk.prog h1 hp hidx hc hb hf, fun _ h => h⟩
+      simp [unwind, hp, Chk.isDisj, hidx]
+
+theorem unwindOr_ok (g : Graph) (ctx : Ctx) (G : Chk → Prop) (s : St) (t : List Ent) (k : EK)
+    (hs : Stk g ctx false t) (hp : PendG G t) :
+    ∃ st', unwindOr s t k = .inl st' ∧ MInv g ctx G st'.todo st'.err := by
+  obtain ⟨t', h1, h2, h3⟩ := unwind_ok g ctx t hs
+  refine ⟨{ s with todo := t' }, by simp [unwindOr, h1], ?_, false, fun _ _ => rfl, Or.inl h2⟩
+  intro e he p hp'
+  exact hp e (h3 e he) p hp'
+
+theorem pendG_cons (G : Chk → Prop) (e : Ent) (rest : List Ent) :
+    PendG G (e :: rest) ↔ (∀ p ∈ e.pending, G p.2) ∧ PendG G rest := by
+  simp [PendG]
+
+theorem kidsRsv_of_closed {ctx : Ctx} {G : Chk → Prop} (hG : ClosedC ctx G) (c : Chk)
+    (hk : ∀ k ∈ chkKids c, G k) : KidsRsv ctx c := by
+  intro k hk'
+  obtain ⟨r, hr, _⟩ := hG k (hk k hk')
+  simp [Rsv, hr]
+
+/-- the work-loop body on a well-formed pair that conforms if the top of the stack is trusted -/
+theorem issue_ok {fx : Fix} (hfx : FixC fx) (g : Graph) (ctx : Ctx) (G : Chk → Prop) (hG : ClosedC ctx G)
+    (s : St) (o : Obj) (tc : Chk) (top : Ent) (rest : List Ent) (htodo : s.todo = top :: rest)
+    (hpend : PendG G (top :: rest)) (hGtc : G tc) (b : Bool) (hstk : Stk g ctx b (top :: rest))
+    (hb : b = true → CConf g ctx (o, tc)) :
+    ∃ st', issue fx g ctx s o tc = .inl st' ∧ MInv g ctx G st'.todo st'.err := by
+  obtain ⟨c, hres, hn, hGc, hGa, hGk, _⟩ := hG tc hGtc
+  have hspec := processCheck_spec hfx g ctx o tc c hres hn (kidsRsv_of_closed hG c hGk)
+  unfold issue
+  simp only [hres]
+  cases hex : haveExamined fx s.examined (o, tc)
+  · simp only [Bool.false_eq_true, if_false]
+    cases hpc : processCheck fx g ctx o tc c with
+    | hard k => rw [hpc] at hspec; exact hspec.elim
+    | fail k =>
+      rw [hpc] at hspec
+      refine ⟨_, rfl, ?_⟩
+      simp only [htodo]
+      refine ⟨hpend, false, fun _ _ => rfl, Or.inl ?_⟩
+      cases b
+      · exact hstk
+      · exact absurd (hb rfl) hspec
+    | pass =>
+      refine ⟨_, rfl, ?_⟩
+      simp only [htodo]
+      exact ⟨hpend, b, by simp, Or.inl hstk⟩
+    | ret p =>
+      rw [hpc] at hspec
+      obtain ⟨hp2, hd, hpc'⟩ := hspec
+      simp only [htodo]
+      refine ⟨_, rfl, ?_⟩
+      simp only []
+      have hGp : G p.2 := by rw [hp2]; exact hGa
+      have hpd : p.2.isDisj = false := by rw [hp2, allowInd_isDisj]; exact hd
+      refine ⟨?_, b, by simp, ?_⟩
+      · rw [pendG_cons] at hpend ⊢
+        refine ⟨?_, hpend.2⟩
+        intro q hq
+        simp only [List.mem_cons] at hq
+        rcases hq with hq | hq
+        · rw [hq]; exact hGp
+        · exact hpend.1 q hq
+      · cases hstk with
+        | plain h1 hidx hc =>
+          left
+          refine Stk.plain h1 hidx ?_
+          intro hb' q hq
+          simp only [List.mem_cons] at hq
+          rcases hq with hq | hq
+          · rw [hq]; exact hpc' (hb hb')
+          · exact hc hb' q hq
+        | prog h1 hp hidx hc hb0 hf =>
+          right
+          exact ⟨rfl, top, rest, p, rfl, hidx, hpd, Stk.prog h1 hp hidx hc hb0 hf, fun hb' => hpc' (hb hb')⟩
+    | push ps =>
+      rw [hpc] at hspec
+      obtain ⟨hkids, hconf⟩ := hspec
+      refine ⟨_, rfl, ?_⟩
+      unfold pushChecks
+      simp only []
+      generalize hset : ps.filter (fun p => !haveExamined fx ((o, tc) :: s.examined) p) = set
+      have hsub : ∀ q ∈ set, q ∈ ps := by
+        intro q hq; rw [← hset] at hq; exact (List.mem_filter.mp hq).1
+      cases set with
+      | nil =>
+        simp only [htodo]
+        exact ⟨hpend, b, by simp, Or.inl hstk⟩
+      | cons q0 qs =>
+        simp only [htodo]
+        refine ⟨?_, b, by simp, Or.inl ?_⟩
+        · rw [pendG_cons]
+          exact ⟨fun q hq => hGk _ (hkids q (hsub q hq)), hpend⟩
+        · exact Stk.plain hstk rfl (fun hb' q hq => hconf (hb hb') q (hsub q hq))
+    | pushRaw ps =>
+      rw [hpc] at hspec
+      obtain ⟨hps, hd⟩ := hspec
+      subst hps
+      refine ⟨_, rfl, ?_⟩
+      simp only [htodo]
+      refine ⟨?_, b, by simp, Or.inl ?_⟩
+      · rw [pendG_cons]
+        exact ⟨fun q hq => by simp only [List.mem_singleton] at hq; rw [hq]; exact hGc, hpend⟩
+      · refine Stk.plain hstk rfl ?_
+        intro hb' q hq
+        simp only [List.mem_singleton] at hq
+        rw [hq]
+        exact (conforms_resolve g ctx o tc c hres (resolve_self ctx c hn)).mp (hb hb')
+  · simp only [if_true]
+    refine ⟨_, rfl, ?_⟩
+    simp only [htodo, hfx.staleErr, if_true]
+    exact ⟨hpend, b, by simp, Or.inl hstk⟩
+
+def StepOK (g : Graph) (ctx : Ctx) (G : Chk → Prop) (r : St ⊕ (Outcome × Nat)) : Prop :=
+  (∃ st', r = .inl st' ∧ MInv g ctx G st'.todo st'.err) ∨ (∃ n, r = .inr (.accept, n))
+
+theorem stepOK_of {g : Graph} {ctx : Ctx} {G : Chk → Prop} {r : St ⊕ (Outcome × Nat)}
+    (h : ∃ st', r = .inl st' ∧ MInv g ctx G st'.todo st'.err) : StepOK g ctx G r := Or.inl h
+
+theorem disj_kids_G {ctx : Ctx} {G : Chk → Prop} (hG : ClosedC ctx G) (a : Attr) (set : ChkL)
+    (h : G (.disj a set)) :
+    (∀ k ∈ set.chks, G k) ∧ set.chks ≠ [] ∧ (a ≠ Attr.dflt → G (.any a)) ∧ G (.disj Attr.dflt set) := by
+  obtain ⟨c, hres, _, _, _, hk, hd⟩ := hG _ h
+  simp only [resolve, Option.some.injEq] at hres
+  subst hres
+  obtain ⟨h1, h2, h3⟩ := hd a set rfl
+  exact ⟨fun k hk' => hk k (by simpa [chkKids] using hk'), h1, h2, h3⟩
+
+/-- the non-disjunction head of the top set -/
+theorem single_ok {fx : Fix} (hfx : FixC fx) (g : Graph) (ctx : Ctx) (G : Chk → Prop) (hG : ClosedC ctx G)
+    (s : St) (e : Ent) (rest : List Ent) (obj : Obj) (tc : Chk) (ptl : List Pend)
+    (hp : e.pending = (obj, tc) :: ptl) (hnd : tc.isDisj = false)
+    (hinv : MInv g ctx G (e :: rest) s.err) :
+    StepOK g ctx G (match s.err with
+      | some k => unwindOr s ({ e with pending := ptl } :: rest) k
+      | none => issue fx g ctx { s with todo := { e with pending := ptl } :: rest } obj tc) := by
+  obtain ⟨hpend, b, hberr, hform⟩ := hinv
+  rw [pendG_cons] at hpend
+  have hpend' : PendG G ({ e with pending := ptl } :: rest) := by
+    rw [pendG_cons]
+    exact ⟨fun q hq => hpend.1 q (by rw [hp]; exact List.mem_cons_of_mem _ hq), hpend.2⟩
+  have hGtc : G tc := hpend.1 (obj, tc) (by rw [hp]; exact List.mem_cons_self)
+  cases herr : s.err with
+  | some k =>
+    simp only []
+    have hb := hberr k herr
+    subst hb
+    rcases hform with hstk | ⟨hnone, _⟩
+    · cases hstk with
+      | plain h1 hidx hc =>
+        exact stepOK_of (unwindOr_ok g ctx G s _ k (Stk.plain h1 hidx (fun h => by cases h)) hpend')
+      | prog h1 hp' hidx hc hb0 hf =>
+        rw [hp] at hp'
+        injection hp' with h1' _
+        injection h1' with _ h2'
+        rw [h2'] at hnd; simp [Chk.isDisj] at hnd
+    · rw [herr] at hnone; cases hnone
+  | none =>
+    simp only []
+    apply stepOK_of
+    rcases hform with hstk | ⟨_, e', rest', p, heq, hidx, hpd, hstk, hpc⟩
+    · cases hstk with
+      | plain h1 hidx hc =>
+        refine issue_ok hfx g ctx G hG _ obj tc { e with pending := ptl } rest rfl hpend' hGtc b
+          (Stk.plain h1 hidx (fun hb q hq => hc hb q (by rw [hp]; exact List.mem_cons_of_mem _ hq)))
+          (fun hb => hc hb (obj, tc) (by rw [hp]; exact List.mem_cons_self))
+      | prog h1 hp' hidx hc hb0 hf =>
+        rw [hp] at hp'
+        injection hp' with h1' _
+        injection h1' with _ h2'
+        rw [h2'] at hnd; simp [Chk.isDisj] at hnd
+    · injection heq with h1 h2
+      subst h1; subst h2
+      obtain ⟨pd, ix, sn⟩ := e'
+      simp only [List.cons.injEq] at hp
+      obtain ⟨hp1, hp2⟩ := hp
+      subst hp1; subst hp2
+      exact issue_ok hfx g ctx G hG _ obj tc ⟨pd, ix, sn⟩ rest rfl hpend' hGtc b hstk hpc
+
+/-- a disjunction at the head of the top set: not started (guard / first alternative) or in progress (passed /
+    next alternative / exhausted) -/
+theorem disj_ok {fx : Fix} (hfx : FixC fx) (g : Graph) (ctx : Ctx) (G : Chk → Prop) (hG : ClosedC ctx G)
+    (s : St) (e : Ent) (rest : List Ent) (obj : Obj) (a : Attr) (set : ChkL) (ptl : List Pend)
+    (hp : e.pending = (obj, .disj a set) :: ptl)
+    (hinv : MInv g ctx G (e :: rest) s.err) :
+    StepOK g ctx G (
+        if e.idx > 0 then
+          match s.err with
+          | none => .inl { s with todo := { e with pending := ptl, idx := 0, snap := none } :: rest }
+          | some k =>
+            match set.chks[e.idx]? with
+            | some c =>
+              issue fx g ctx
+                (restore fx { s with todo := { e with pending := (obj, .disj a set) :: ptl, idx := e.idx + 1 } :: rest } e)
+                obj c
+            | none =>
+              unwindOr (restore fx s e)
+                ({ e with pending := ptl, idx := if fx.staleIdx then 0 else e.idx, snap := none } :: rest) k
+        else
+          match s.err with
+          | some k => unwindOr s ({ e with pending := ptl } :: rest) k
+          | none =>
+            match set.chks with
+            | [] => .inr (.panic "get_next_check: unreachable (empty disjunct)", s.steps)
+            | c0 :: _ =>
+              if fx.disjAttrs && a != Attr.dflt then
+                issue fx g ctx
+                  { s with todo := { e with pending := (obj, .disj Attr.dflt set) :: ptl } :: rest }
+                  obj (.any a)
+              else
+                issue fx g ctx
+                  { s with todo := { e with pending := (obj, .disj a set) :: ptl, idx := 1,
+                                             snap := if fx.trail then some s.examined else none } :: rest }
+                  obj c0) := by
+  obtain ⟨hpend, b, hberr, hform⟩ := hinv
+  rw [pendG_cons] at hpend
+  have hpend' : ∀ (i : Nat) (sn : Option (List Pend)), PendG G (({ pending := ptl, idx := i, snap := sn } : Ent) :: rest) := by
+    intro i sn
+    rw [pendG_cons]
+    exact ⟨fun q hq => hpend.1 q (by rw [hp]; exact List.mem_cons_of_mem _ hq), hpend.2⟩
+  have hGd : G (.disj a set) := hpend.1 (obj, .disj a set) (by rw [hp]; exact List.mem_cons_self)
+  obtain ⟨hGk, hne, hGg, hGb⟩ := disj_kids_G hG a set hGd
+  have hpendD : ∀ (a' : Attr), G (.disj a' set) → ∀ (i : Nat) (sn : Option (List Pend)),
+      PendG G (({ pending := (obj, .disj a' set) :: ptl, idx := i, snap := sn } : Ent) :: rest) := by
+    intro a' ha' i sn
+    rw [pendG_cons]
+    refine ⟨fun q hq => ?_, hpend.2⟩
+    simp only [List.mem_cons] at hq
+    rcases hq with hq | hq
+    · rw [hq]; exact ha'
+    · exact hpend.1 q (by rw [hp]; exact List.mem_cons_of_mem _ hq)
+  -- the returned-pair form is impossible: the head is a disjunction
+  have hstk : Stk g ctx b (e :: rest) := by
+    rcases hform with hstk | ⟨_, e', rest', p, heq, _, hpd, _, _⟩
+    · exact hstk
+    · injection heq with h1 h2
+      subst h1
+      simp only [List.cons.injEq] at hp
+      rw [hp.1] at hpd
+      simp [Chk.isDisj] at hpd
+  by_cases hidx : e.idx > 0
+  · simp only [hidx, if_true]
+    cases hstk with
+    | plain h1 hidx0 hc => omega
+    | prog h1 hp' hidx' hc hb0 hf =>
+      rename_i b0 obj' a' set' ptl'
+      rw [hp] at hp'
+      simp only [List.cons.injEq, Prod.mk.injEq, Chk.disj.injEq] at hp'
+      obtain ⟨⟨ho, ha, hs⟩, hpt⟩ := hp'
+      subst ho; subst ha; subst hs; subst hpt
+      cases herr : s.err with
+      | none =>
+        simp only []
+        apply stepOK_of
+        refine ⟨_, rfl, hpend' 0 none, b0, by simp, Or.inl (Stk.plain h1 rfl hc)⟩
+      | some k =>
+        simp only []
+        have hbf := hberr k herr
+        subst hbf
+        have hrest : ∀ st : St, restore fx st e = st := by intro st; simp [restore, hfx.trail]
+        cases hget : set.chks[e.idx]? with
+        | some c =>
+          simp only [hrest]
+          apply stepOK_of
+          have hGc : G c := hGk c (List.mem_of_getElem? hget)
+          have hpe := hpendD a hGd (e.idx + 1) e.snap
+          cases b0 with
+          | false =>
+            exact issue_ok hfx g ctx G hG _ obj c _ rest rfl hpe hGc false
+              (Stk.prog h1 rfl (Nat.succ_pos _) (fun h => by cases h) (fun h => by cases h) (fun h => by cases h))
+              (fun h => by cases h)
+          | true =>
+            obtain ⟨j, alt, hj, hgj, hcf⟩ := hf rfl rfl
+            by_cases hje : j = e.idx
+            · subst hje
+              rw [hget] at hgj
+              injection hgj with hgj
+              subst hgj
+              exact issue_ok hfx g ctx G hG _ obj c _ rest rfl hpe hGc true
+                (Stk.prog h1 rfl (Nat.succ_pos _) hc (fun _ => rfl) (fun _ h => by cases h))
+                (fun _ => hcf)
+            · exact issue_ok hfx g ctx G hG _ obj c _ rest rfl hpe hGc false
+                (Stk.prog h1 rfl (Nat.succ_pos _) hc (fun h => by cases h)
+                  (fun _ _ => ⟨j, alt, by simp only []; omega, hgj, hcf⟩))
+                (fun h => by cases h)
+        | none =>
+          simp only [hrest, hfx.staleIdx, if_true]
+          apply stepOK_of
+          cases b0 with
+          | false =>
+            exact unwindOr_ok g ctx G s _ k (Stk.plain h1 rfl (fun h => by cases h)) (hpend' 0 none)
+          | true =>
+            obtain ⟨j, alt, hj, hgj, hcf⟩ := hf rfl rfl
+            rw [List.getElem?_eq_none_iff] at hget
+            have : set.chks[j]? = none := List.getElem?_eq_none_iff.mpr (by omega)
+            rw [this] at hgj; cases hgj
+  · simp only [hidx, if_false]
+    cases hstk with
+    | prog h1 hp' hidx' hc hb0 hf => omega
+    | plain h1 hidx0 hc =>
+      cases herr : s.err with
+      | some k =>
+        simp only []
+        have hbf := hberr k herr
+        subst hbf
+        apply stepOK_of
+        exact unwindOr_ok g ctx G s _ k (Stk.plain h1 hidx0 (fun h => by cases h)) (hpend' e.idx e.snap)
+      | none =>
+        simp only []
+        cases hch : set.chks with
+        | nil => exact absurd hch hne
+        | cons c0 cs =>
+          simp only []
+          have hGc0 : G c0 := hGk c0 (by rw [hch]; exact List.mem_cons_self)
+          have hconfD : b = true → CConf g ctx (obj, .disj a set) :=
+            fun hb => hc hb _ (by rw [hp]; exact List.mem_cons_self)
+          have hconfT : b = true → ∀ q ∈ ptl, CConf g ctx q :=
+            fun hb q hq => hc hb q (by rw [hp]; exact List.mem_cons_of_mem _ hq)
+          by_cases hattr : (fx.disjAttrs && a != Attr.dflt) = true
+          · simp only [hattr, if_true]
+            apply stepOK_of
+            have hane : a ≠ Attr.dflt := by
+              simp only [Bool.and_eq_true, bne_iff_ne] at hattr; exact hattr.2
+            refine issue_ok hfx g ctx G hG _ obj (.any a) _ rest rfl (hpendD Attr.dflt hGb e.idx e.snap) (hGg hane) b
+              (Stk.plain h1 hidx0 ?_) (fun hb => (conforms_disj_alt g ctx obj a set (hconfD hb)).1)
+            intro hb q hq
+            simp only [List.mem_cons] at hq
+            rcases hq with hq | hq
+            · rw [hq]; exact (conforms_disj_alt g ctx obj a set (hconfD hb)).2.1
+            · exact hconfT hb q hq
+          · simp only [hattr, Bool.false_eq_true, if_false]
+            apply stepOK_of
+            have hpe := hpendD a hGd 1 (if fx.trail then some s.examined else none)
+            cases b with
+            | false =>
+              exact issue_ok hfx g ctx G hG _ obj c0 _ rest rfl hpe hGc0 false
+                (Stk.prog h1 rfl Nat.one_pos (fun h => by cases h) (fun h => by cases h) (fun h => by cases h))
+                (fun h => by cases h)
+            | true =>
+              obtain ⟨j, alt, hgj, hcf⟩ := (conforms_disj_alt g ctx obj a set (hconfD rfl)).2.2
+              by_cases hj0 : j = 0
+              · subst hj0
+                rw [hch] at hgj
+                simp only [List.getElem?_cons_zero, Option.some.injEq] at hgj
+                subst hgj
+                exact issue_ok hfx g ctx G hG _ obj c0 _ rest rfl hpe hGc0 true
+                  (Stk.prog h1 rfl Nat.one_pos (hconfT) (fun _ => rfl) (fun _ h => by cases h))
+                  (fun _ => hcf)
+              · exact issue_ok hfx g ctx G hG _ obj c0 _ rest rfl hpe hGc0 false
+                  (Stk.prog h1 rfl Nat.one_pos (hconfT) (fun h => by cases h)
+                    (fun _ _ => ⟨j, alt, by simp only []; omega, hgj, hcf⟩))
+                  (fun h => by cases h)
+
+/-- one iteration of the `get_next_check` loop keeps the invariant, or the run ends with `accept` -/
+theorem step_ok {fx : Fix} (hfx : FixC fx) (g : Graph) (ctx : Ctx) (G : Chk → Prop) (hG : ClosedC ctx G)
+    (st0 : St) (hinv : MInv g ctx G st0.todo st0.err) : StepOK g ctx G (step fx g ctx st0) := by
+  unfold step
+  generalize hst : (if st0.fresh = true then { st0 with steps := st0.steps + 1, fresh := false } else st0) = s
+  have hs1 : st0.todo = s.todo := by subst hst; split <;> rfl
+  have hs3 : st0.err = s.err := by subst hst; split <;> rfl
+  rw [hs1, hs3] at hinv
+  clear hst hs1 hs3
+  simp only []
+  cases htd : s.todo with
+  | nil =>
+    simp only []
+    rw [htd] at hinv
+    obtain ⟨_, b, hberr, hform⟩ := hinv
+    have hstk : Stk g ctx b [] := by
+      rcases hform with h | ⟨_, _, _, _, heq, _⟩
+      · exact h
+      · cases heq
+    cases herr : s.err with
+    | some k =>
+      have := hberr k herr
+      subst this
+      cases hstk
+    | none => exact Or.inr ⟨_, rfl⟩
+  | cons e rest =>
+    simp only []
+    rw [htd] at hinv
+    cases hp : e.pending with
+    | nil =>
+      simp only []
+      obtain ⟨hpend, b, hberr, hform⟩ := hinv
+      have hstk : Stk g ctx b (e :: rest) := by
+        rcases hform with h | ⟨_, e', _, p, heq, _⟩
+        · exact h
+        · injection heq with h1 _
+          subst h1
+          simp at hp
+      rw [pendG_cons] at hpend
+      cases herr : s.err with
+      | none =>
+        simp only []
+        apply stepOK_of
+        cases hstk with
+        | plain h1 _ _ => exact ⟨_, rfl, hpend.2, b, by simp, Or.inl h1⟩
+        | prog _ hp' _ _ _ _ => rw [hp] at hp'; cases hp'
+      | some k =>
+        simp only []
+        have := hberr k herr
+        subst this
+        apply stepOK_of
+        refine unwindOr_ok g ctx G s _ k hstk ?_
+        rw [pendG_cons]; exact hpend
+    | cons p ptl =>
+      obtain ⟨obj, tc⟩ := p
+      simp only []
+      cases tc with
+      | disj a set => exact disj_ok hfx g ctx G hG s e rest obj a set ptl hp hinv
+      | named n => exact single_ok hfx g ctx G hG s e rest obj _ ptl hp rfl hinv
+      | any a => exact single_ok hfx g ctx G hG s e rest obj _ ptl hp rfl hinv
+      | prim a p => exact single_ok hfx g ctx G hG s e rest obj _ ptl hp rfl hinv
+      | array a el sz => exact single_ok hfx g ctx G hG s e rest obj _ ptl hp rfl hinv
+      | het a es => exact single_ok hfx g ctx G hG s e rest obj _ ptl hp rfl hinv
+      | dict a es => exact single_ok hfx g ctx G hG s e rest obj _ ptl hp rfl hinv
+      | dictStar a es so sc => exact single_ok hfx g ctx G hG s e rest obj _ ptl hp rfl hinv
+      | stream a es => exact single_ok hfx g ctx G hG s e rest obj _ ptl hp rfl hinv
+
+/-- a run from a state satisfying the invariant never ends with a rejection or a panic -/
+theorem run_ok {fx : Fix} (hfx : FixC fx) (g : Graph) (ctx : Ctx) (G : Chk → Prop) (hG : ClosedC ctx G) :
+    ∀ (n : Nat) (st : St), MInv g ctx G st.todo st.err →
+      (run fx g ctx n st).1 = .accept ∨ (run fx g ctx n st).1 = .outOfFuel
+  | 0, st, _ => by simp [run]
+  | n+1, st, hinv => by
+    simp only [run]
+    rcases step_ok hfx g ctx G hG st hinv with ⟨st', h1, h2⟩ | ⟨m, h1⟩
+    · rw [h1]; exact run_ok hfx g ctx G hG n st' h2
+    · rw [h1]; exact Or.inl rfl
+
+/-- COMPLETENESS over a closed well-formed set of checks `G`, for the machine started on a check of `G` (what
+    `check_type` does after `resolve` and `normalize_check`): a conforming object is never rejected -/
+theorem run_complete {fx : Fix} (hfx : FixC fx) (g : Graph) (ctx : Ctx) (G : Chk → Prop) (hG : ClosedC ctx G)
+    (o : Obj) (c : Chk) (hc : G c) (hconf : Conforms g ctx o c) (fuel : Nat) :
+    (run fx g ctx fuel (initSt o c)).1 = .accept ∨ (run fx g ctx fuel (initSt o c)).1 = .outOfFuel := by
+  apply run_ok hfx g ctx G hG
+  refine ⟨?_, true, by simp [initSt], Or.inl ?_⟩
+  · intro e he p hp
+    simp only [initSt, List.mem_singleton] at he
+    subst he
+    simp only [List.mem_singleton] at hp
+    subst hp; exact hc
+  · refine Stk.plain Stk.nil rfl ?_
+    intro _ p hp
+    simp only [List.mem_singleton] at hp
+    subst hp; exact hconf
+
+/-! ### the closed set of a case: the universe `chkU` of Spec/WorkBound.lean under `Frag.wfSpec` -/
+
+/-- a well-formed node: a name is bound to a representation, a disjunction is not empty -/
+def NodeWF (ctx : Ctx) (b : Chk) : Prop :=
+  (∀ n, b = .named n → ∃ r, ctx.lookup n = some r ∧ ∀ m, r ≠ .named m) ∧ (∀ a, b ≠ .disj a .nil)
+
+theorem nodeWF_plain (ctx : Ctx) (b : Chk) (h1 : ∀ n, b ≠ .named n) (h2 : ∀ a, b ≠ .disj a .nil) : NodeWF ctx b :=
+  ⟨fun n hn => absurd hn (h1 n), h2⟩
+
+mutual
+theorem nodeWF_subs (ctx : Ctx) : ∀ (c : Chk), wfChk ctx c = true → ∀ b ∈ chkSubs c, NodeWF ctx b
+  | .named n, h, b, hb => by
+    simp only [chkSubs, List.mem_singleton] at hb
+    subst hb
+    refine ⟨fun m hm => ?_, fun a ha => (by cases ha)⟩
+    injection hm with hm; subst hm
+    simp only [wfChk] at h
+    cases hl : ctx.lookup n with
+    | none => simp [hl] at h
+    | some r =>
+      refine ⟨r, rfl, fun m hm => ?_⟩
+      subst hm
+      simp [hl] at h
+  | .any a, _, b, hb => by
+    simp only [chkSubs, List.mem_singleton] at hb
+    subst hb
+    exact nodeWF_plain ctx _ (fun _ h => by cases h) (fun _ h => by cases h)
+  | .prim a p, _, b, hb => by
+    simp only [chkSubs, List.mem_singleton] at hb
+    subst hb
+    exact nodeWF_plain ctx _ (fun _ h => by cases h) (fun _ h => by cases h)
+  | .array a e sz, h, b, hb => by
+    simp only [chkSubs, List.mem_cons] at hb
+    simp only [wfChk] at h
+    rcases hb with hb | hb
+    · subst hb; exact nodeWF_plain ctx _ (fun _ h => by cases h) (fun _ h => by cases h)
+    · exact nodeWF_subs ctx e h b hb
+  | .het a es, h, b, hb => by
+    simp only [chkSubs, List.mem_cons] at hb
+    simp only [wfChk] at h
+    rcases hb with hb | hb
+    · subst hb; exact nodeWF_plain ctx _ (fun _ h => by cases h) (fun _ h => by cases h)
+    · exact nodeWF_subsL ctx es h b hb
+  | .dict a es, h, b, hb => by
+    simp only [chkSubs, List.mem_cons] at hb
+    simp only [wfChk] at h
+    rcases hb with hb | hb
+    · subst hb; exact nodeWF_plain ctx _ (fun _ h => by cases h) (fun _ h => by cases h)
+    · exact nodeWF_subsL ctx es h b hb
+  | .stream a es, h, b, hb => by
+    simp only [chkSubs, List.mem_cons] at hb
+    simp only [wfChk] at h
+    rcases hb with hb | hb
+    · subst hb; exact nodeWF_plain ctx _ (fun _ h => by cases h) (fun _ h => by cases h)
+    · exact nodeWF_subsL ctx es h b hb
+  | .dictStar a es so sc, h, b, hb => by
+    simp only [chkSubs, List.mem_cons, List.mem_append] at hb
+    simp only [wfChk, Bool.and_eq_true] at h
+    rcases hb with hb | hb | hb
+    · subst hb; exact nodeWF_plain ctx _ (fun _ h => by cases h) (fun _ h => by cases h)
+    · exact nodeWF_subsL ctx es h.1 b hb
+    · exact nodeWF_subs ctx sc h.2 b hb
+  | .disj a os, h, b, hb => by
+    simp only [chkSubs, List.mem_cons] at hb
+    simp only [wfChk, Bool.and_eq_true] at h
+    rcases hb with hb | hb
+    · subst hb
+      refine ⟨fun m hm => (by cases hm), fun a' ha => ?_⟩
+      injection ha with _ ha
+      subst ha
+      simp at h
+    · exact nodeWF_subsL ctx os h.2 b hb
+theorem nodeWF_subsL (ctx : Ctx) : ∀ (l : ChkL), wfChkL ctx l = true → ∀ b ∈ chkLSubs l, NodeWF ctx b
+  | .nil, _, b, hb => by simp [chkLSubs] at hb
+  | .cons k o c t, h, b, hb => by
+    simp only [chkLSubs, List.mem_append] at hb
+    simp only [wfChkL, Bool.and_eq_true] at h
+    rcases hb with hb | hb
+    · exact nodeWF_subs ctx c h.1 b hb
+    · exact nodeWF_subsL ctx t h.2 b hb
+end
+
+theorem nodeWF_baseU (ctx : Ctx) (c0 : Chk) (h : wfChk ctx c0 = true) (hctx : wfCtx ctx = true) :
+    ∀ b ∈ baseU ctx c0, NodeWF ctx b := by
+  intro b hb
+  simp only [baseU, List.mem_append, List.mem_flatMap] at hb
+  rcases hb with hb | ⟨d, hd, hb⟩
+  · exact nodeWF_subs ctx c0 h b hb
+  · simp only [wfCtx, List.all_eq_true] at hctx
+    exact nodeWF_subs ctx d.2 (hctx d hd) b hb
+
+theorem nodeWF_decor (ctx : Ctx) (b d : Chk) (hd : d ∈ decor b) (h : NodeWF ctx b) : NodeWF ctx d := by
+  simp only [decor, List.mem_cons, List.not_mem_nil, or_false] at hd
+  rcases hd with hd | hd | hd | hd | hd <;> subst hd
+  · exact h
+  · cases b with
+    | named n => exact h
+    | disj a os =>
+      refine ⟨fun m hm => (by cases hm), fun a' ha => ?_⟩
+      simp only [Chk.allowInd, Chk.setAttr, Chk.disj.injEq] at ha
+      exact h.2 _ (by rw [ha.2])
+    | _ => exact nodeWF_plain ctx _ (fun _ h => by cases h) (fun _ h => by cases h)
+  · cases b with
+    | named n => exact h
+    | disj a os =>
+      refine ⟨fun m hm => (by cases hm), fun a' ha => ?_⟩
+      simp only [Chk.setAttr, Chk.disj.injEq] at ha
+      exact h.2 _ (by rw [ha.2])
+    | _ => exact nodeWF_plain ctx _ (fun _ h => by cases h) (fun _ h => by cases h)
+  · exact nodeWF_plain ctx _ (fun _ h => by cases h) (fun _ h => by cases h)
+  · exact nodeWF_plain ctx _ (fun _ h => by cases h) (fun _ h => by cases h)
+
+theorem chks_ne_nil (os : ChkL) (h : os ≠ .nil) : os.chks ≠ [] := by
+  cases os with
+  | nil => exact absurd rfl h
+  | cons k o c t => simp [ChkL.chks, ChkL.toList]
+
+/-- the universe of a well-formed case is a closed well-formed set -/
+theorem closedC_chkU (ctx : Ctx) (c0 : Chk) (hwf : ∀ b ∈ baseU ctx c0, NodeWF ctx b) :
+    ClosedC ctx (fun d => d ∈ chkU ctx c0) := by
+  have hU : ∀ d ∈ chkU ctx c0, NodeWF ctx d := by
+    intro d hd
+    simp only [chkU, List.mem_flatMap] at hd
+    obtain ⟨b, hb, hd⟩ := hd
+    exact nodeWF_decor ctx b d hd (hwf b hb)
+  intro tc htc
+  have hres : ∃ c, resolve ctx tc = some c ∧ ∀ n, c ≠ .named n := by
+    cases tc with
+    | named n =>
+      obtain ⟨r, hr, hrn⟩ := (hU _ htc).1 n rfl
+      exact ⟨r, hr, hrn⟩
+    | _ => exact ⟨_, rfl, fun n h => (by cases h)⟩
+  obtain ⟨c, hres, hn⟩ := hres
+  have hc : c ∈ chkU ctx c0 := chkU_resolve ctx c0 tc c htc hres
+  refine ⟨c, hres, hn, hc, chkU_allowInd ctx c0 c hc, fun k hk => chkU_kids ctx c0 c k hc hk, ?_⟩
+  intro a os he
+  subst he
+  have hsp := chkU_split ctx c0 a os hc
+  refine ⟨chks_ne_nil os (fun h => (hU _ hc).2 a (by rw [h])), hsp.1, hsp.2⟩
+
+/-- what `wfSpec` says about the check the machine is started on -/
+theorem wfSpec_resolve (ctx : Ctx) (chk : Chk) (h : wfSpec ctx chk = true) :
+    ∃ rep, resolve ctx chk = some rep ∧ (∀ n, rep ≠ .named n) ∧ wfChk ctx rep = true ∧ wfCtx ctx = true := by
+  simp only [wfSpec, Bool.and_eq_true] at h
+  cases chk with
+  | named n =>
+    obtain ⟨r, hr, hrn⟩ := (nodeWF_subs ctx (.named n) h.1 _ (chkSubs_self _)).1 n rfl
+    obtain ⟨d, hd, hde⟩ := lookup_mem_ctx ctx n r hr
+    have := h.2
+    simp only [wfCtx, List.all_eq_true] at this
+    exact ⟨r, hr, hrn, by rw [← hde]; exact this d hd, h.2⟩
+  | _ => exact ⟨_, rfl, fun n hn => (by cases hn), h.1, h.2⟩
+
+/-- COMPLETENESS of `check_type`, any fuel: a conforming object of a well-formed specification is never rejected
+    (and the checker never panics on it) -/
+theorem checkType_complete_fuel {fx : Fix} (hfx : FixC fx) (g : Graph) (ctx : Ctx) (o : Obj) (chk : Chk)
+    (hwf : wfSpec ctx chk = true) (hconf : Conforms g ctx o chk) (fuel : Nat) :
+    (checkTypeFuel fx g ctx fuel o chk).1 = .accept ∨ (checkTypeFuel fx g ctx fuel o chk).1 = .outOfFuel := by
+  obtain ⟨rep, hres, hn, hwfr, hwfc⟩ := wfSpec_resolve ctx chk hwf
+  unfold checkTypeFuel
+  simp only [hres]
+  have h1 : Conforms g ctx o rep := (conforms_resolve g ctx o chk rep hres (resolve_self ctx rep hn)).mp hconf
+  have h2 : Conforms g ctx o (rep.norm fx) := Norm.conforms_norm fx g ctx o rep h1
+  have h3 : wfChk ctx (rep.norm fx) = true := Norm.wfChk_norm fx ctx rep hwfr
+  exact run_complete hfx g ctx _ (closedC_chkU ctx (rep.norm fx) (nodeWF_baseU ctx _ h3 hwfc)) o (rep.norm fx)
+    (base_sub_chkU ctx _ _ (by simp [baseU, chkSubs_self])) h2 fuel
+
+/-- COMPLETENESS of `check_type` run with the work bound of C09: a conforming object is ACCEPTED -/
+theorem checkType_complete {fx : Fix} (hfx : FixC fx) (g : Graph) (ctx : Ctx) (o : Obj) (chk : Chk)
+    (hwf : wfSpec ctx chk = true) (hconf : Conforms g ctx o chk) :
+    (checkTypeFuel fx g ctx (workBound fx g ctx o chk) o chk).1 = .accept := by
+  rcases checkType_complete_fuel hfx g ctx o chk hwf hconf (workBound fx g ctx o chk) with h | h
+  · exact h
+  · exact absurd h (checkTypeFuel_terminates fx hfx.trail g ctx o chk)
 
 end Parsley.TC.Complete
